@@ -198,9 +198,13 @@ def r3(ctx):
     ucfg = cfg_of(up)
     bps = calls_named(up, "_build_packet")
     if ctx.require("C12.R3", up, "_build_packet call in UdpClient.update", len(bps), 1):
+        ucc = CondCtx(ctx.folder, up.module, up.cls)
         conds = sorted((norm(t), p) for (t, p) in ucfg.conditions_of(ucfg.node_of(bps[0]).id))
-        allowed = {("self.conn", True), ("self.conn.status == ConnectionStatus.DROPPED", False)}
-        extra = [c for c in conds if c not in allowed and "last_send_time" not in c[0]]
+        allowed = {repr(l) for (t, p) in ((ast.parse("self.conn", mode="eval").body, True),
+                                          (ast.parse("self.conn.status == ConnectionStatus.DROPPED", mode="eval").body, False))
+                   for l in ucc.literal(t, p)}
+        extra = [(norm(t), p) for (t, p) in ucfg.conditions_of(ucfg.node_of(bps[0]).id)
+                 if "last_send_time" not in norm(t) and any(repr(l) not in allowed for l in ucc.literal(t, p))]
         ctx.check(not extra, "C12.R3", up, "the client builds a packet on every send tick while not DROPPED", "no dependence on pending messages or on received data", witness=conds)
     su = ctx.fn("connection:ServerClientConnection.update")
     scfg = cfg_of(su)
